@@ -21,6 +21,28 @@ def run(tier, seed):
                                  "--ttl", "1", "--end", "drop", "--longkeys", "1",
                                  "--maximages", "200" if tier == "quick" else "1000"]))
     viol, st, traces = ce.run_and_validate(PROP, fxv, rd, jobs, INV)
+    # failing metadata writes: flush may only report success when the persisted counters are right
+    base = ["--seed", str(rng.randrange(1 << 30)), "--steps", "25", "--fmt", "3", "--blocks", "40",
+            "--cpus", "2", "--keys", "3", "--ttl", "1", "--end", "leak", "--forcesync", "1",
+            "--flushpct", "25", "--maximages", "0"]
+    b = ce.run_workloads(fxv, rd, [("mbase", base)])
+    if b[0]["rc"] != 0:
+        raise v.ToolError("baseline run failed: " + b[0]["stderr"][-300:])
+    io = -1
+    meta_idx = []
+    for line in open(b[0]["trace"]):
+        if '"e":"w"' in line or '"e":"fsync"' in line:
+            io += 1
+            if '"kind":"m"' in line:
+                meta_idx += [io, io + 1]
+    fjobs = []
+    for i in meta_idx[2:(14 if tier == "quick" else 60)]:
+        for mode in (1, 2):
+            fjobs.append(("mf%d_%d" % (i, mode), base + ["--faultat", str(i), "--faultmode", str(mode)]))
+    v2, st2, _ = ce.run_and_validate(PROP, fxv, rd, fjobs, ["AtAckJournalClear", "AtAckLayout", "MetaMatches"])
+    viol += v2
+    for k in ("traces", "states", "transitions", "flushes", "images_real"):
+        st[k] += st2[k]
     cov = {
         "programs": st["traces"], "disagreements_checked": st["flushes"] + st["images_real"],
         "samples": ce.sample_of(traces[0]) if traces else [],
